@@ -26,6 +26,9 @@ Ops (bytes in hex, empty = empty):
   ec op=params bits=                                                        → ok p= b= gx= gy= n=
       (Lean-native ECDSA over the NIST curves, `Kit.Crypto.Ecdsa`)
   ed op=verify pk= msg= sig= → ok valid= | op=sign seed= msg= → ok sig= | op=public seed= → ok pk=
+  asymfull fn=SignPrivateKey|VerifyPublicKey alg= kind= <key material> digest= [sig=] [rand=]
+      → ok sig= | ok valid= | err <class>   (the MODEL's signPrivateKey/verifyPublicKey end to end:
+        generated dispatch + key guard + the Lean-native scheme the helper's stdlib call denotes)
       (Lean-native Ed25519, RFC 8032, `Kit.Crypto.Ed25519`)
 Errors: `err <class>`; panics of the Go code: `panic <why>`.
 `x=` is a cross-check of the hand-written parts of the model (RFC 3394, CBC, CBC-HMAC) against
@@ -73,6 +76,58 @@ def realPrims : Prims where
     match hashOfBits bits with
     | some h => Kit.Crypto.hmac h key msg
     | none => []
+
+/-- Key material of any of the asymmetric key types, as numbers / octets. -/
+structure KeyMat where
+  n : Nat := 0
+  e : Nat := 0
+  d : Nat := 0
+  qx : Nat := 0
+  qy : Nat := 0
+  dd : Nat := 0
+  seed : Bytes := []
+  pk : Bytes := []
+
+def rsaHashOfBits (bits : Nat) : Option Kit.Crypto.RsaHash :=
+  if bits = 1 then some .sha1 else if bits = 256 then some .sha256 else if bits = 384 then some .sha384
+  else if bits = 512 then some .sha512 else none
+
+def boolVerify (b : Bool) : StdVerify := if b then .valid else .invalid
+
+/-- The signature scheme a dispatched helper's stdlib call denotes, on the Lean-native primitives.
+`rand` is the PSS salt / the ECDSA per-signature secret.  A digest of the wrong size is an invalid
+signature for the RSA verifiers too (Go maps the encoding error to ErrVerification). -/
+def schemeOfPlan (pl : AsymPlan) : SigScheme KeyMat KeyMat where
+  pub := id
+  sign := fun k digest rand =>
+    let c := pl.helper.stdCall
+    if c = "rsa.SignPKCS1v15" then
+      match (rsaHashOfBits pl.hash).bind fun h => Kit.Crypto.rsaSignPkcs1v15 k.n k.d h digest with
+      | some s => .ok s | none => .err "rsa:sign"
+    else if c = "rsa.SignPSS" then
+      match (rsaHashOfBits pl.hash).bind fun h => Kit.Crypto.rsaSignPss k.n k.d h digest rand with
+      | some s => .ok s | none => .err "rsa:sign"
+    else if c = "ecdsa.SignASN1" then
+      match (Kit.Crypto.curveOfBits pl.curve).bind fun cv => Kit.Crypto.ecdsaSign cv k.dd (Kit.Crypto.os2ip rand) digest with
+      | some s => .ok s | none => .err "ecdsa:sign"
+    else if c = "ed25519.Sign" then .ok (Kit.Crypto.Ed25519.sign k.seed digest)
+    else .panic ("model: no scheme for " ++ c)
+  verify := fun k digest sig =>
+    let c := pl.helper.stdCall
+    if c = "rsa.VerifyPKCS1v15" then
+      match rsaHashOfBits pl.hash with
+      | some h => boolVerify (Kit.Crypto.rsaVerifyPkcs1v15 k.n k.e h digest sig)
+      | none => .failure "rsa:hash"
+    else if c = "rsa.VerifyPSS" then
+      match rsaHashOfBits pl.hash with
+      | some h => boolVerify (Kit.Crypto.rsaVerifyPss k.n k.e h digest sig none)
+      | none => .failure "rsa:hash"
+    else if c = "ecdsa.VerifyASN1" then
+      match Kit.Crypto.curveOfBits pl.curve with
+      | some cv => boolVerify (Kit.Crypto.ecdsaVerify cv k.qx k.qy digest sig)
+      | none => .failure "ecdsa:curve"
+    else if c = "ed25519.Verify" then boolVerify (Kit.Crypto.Ed25519.verify k.pk digest sig)
+    else .failure ("model: no scheme for " ++ c)
 
 def parseKind (s : String) : Option KeyKind :=
   if s = "oct" then some .oct
@@ -289,6 +344,26 @@ def answer (l : Line) : String :=
         if seed.length = 32 then s!"ok pk={toHex (Kit.Crypto.Ed25519.publicKey seed)}" else "err seed"
       else "bad ed op"
     | _, _, _, _, _ => "bad ed line"
+  | "asymfull" =>
+    -- end-to-end model of SignPrivateKey / VerifyPublicKey: generated dispatch + key guard + the
+    -- Lean-native scheme the dispatched helper's stdlib call denotes
+    let num (k : String) : Nat := ((hexOr l k).map Kit.Crypto.os2ip).getD 0
+    let byt (k : String) : Bytes := (hexOr l k).getD []
+    match l.get? "fn", algOf l, (l.get? "kind").bind parseKind with
+    | some fn, some alg, some kind =>
+      let km : KeyMat := { n := num "n", e := num "e", d := num "d", qx := num "qx", qy := num "qy", dd := num "dd",
+                           seed := byt "seed", pk := byt "pk" }
+      let sw := if fn = "SignPrivateKey" then Generated.C03.sw_SignPrivateKey else Generated.C03.sw_VerifyPublicKey
+      match asymPlan sw alg with
+      | .err e => s!"err {clean e}"
+      | .panic w => s!"panic {clean w}"
+      | .ok pl =>
+        let S := schemeOfPlan pl
+        if fn = "SignPrivateKey" then
+          render (signPrivateKey S alg kind km (byt "digest") (byt "rand")) (fun sg => s!"sig={toHex sg}")
+        else
+          render (verifyPublicKey S alg kind km (byt "digest") (byt "sig")) (fun b => s!"valid={b}")
+    | _, _, _ => "bad asymfull line"
   | _ => "bad op"
 
 def main (_args : List String) : IO UInt32 := do
